@@ -351,6 +351,67 @@ func (ex *Exec) runVC() {
 		}
 	}
 	ex.postconditions()
+	ex.frameCheck()
+}
+
+// frameIrrelevant: synchronisation primitives and statistics counters; no contract talks about them.
+func frameIrrelevant(comp string) bool {
+	for _, p := range []string{"F:internal/sync.", "F:sync.", "F:sync/atomic.", "F:base.AtomicInt", "F:base.AtomicBool", "F:base.Sgw", "F:internal/race", "C:sync/atomic.", "F:time.Time."} {
+		if strings.HasPrefix(comp, p) {
+			return true
+		}
+	}
+	return false
+}
+
+// frameCheck: syntactic comparison of what the body may write (component granularity) with the contract's
+// modifies clause. A gap means callers assume a frame that the body is not shown to respect. Reported as an
+// assumption ("FRAME-GAP") in the evidence; with `frame on` in the contract it is an obligation.
+func (ex *Exec) frameCheck() {
+	con := ex.c
+	g := ex.g
+	if con.ModAll {
+		return
+	}
+	all := map[*ssa.BasicBlock]bool{}
+	for _, b := range ex.fn.Blocks {
+		all[b] = true
+	}
+	written, _, any, unknown := ex.blockWrites(all, true)
+	allowed, ok := ex.modComps(con)
+	if !ok {
+		g.note("FRAME-GAP " + g.curFunc + ": modifies clause not analysable")
+		return
+	}
+	var gaps []string
+	for c := range written {
+		if c == "alloc" || frameIrrelevant(c) {
+			continue
+		}
+		if !allowed[c] {
+			gaps = append(gaps, c)
+		}
+	}
+	sort.Strings(gaps)
+	if any {
+		sort.Strings(unknown)
+		u := unknown
+		if len(u) > 6 {
+			u = append(u[:6:6], "...")
+		}
+		g.note("FRAME-GAP " + g.curFunc + ": calls with unknown effect (" + strings.Join(u, ", ") + ") while the contract claims a limited modifies clause")
+	}
+	if len(gaps) > 0 {
+		g.note("FRAME-GAP " + g.curFunc + ": body may write " + strings.Join(gaps, ", ") + " not covered by its modifies clause")
+	}
+	if con.Frame {
+		goal := "true"
+		if len(gaps) > 0 || any {
+			goal = "false"
+		}
+		g.obls = append(g.obls, &Obligation{Name: g.curFunc + "/frame/modifies-covers-writes", Func: g.curFunc, Kind: "frame", Label: "modifies-covers-writes",
+			Goal: goal, PC: "true", NFacts: 0, g: g, Expect: "unsat", Props: con.Props, Src: "every component the body may write is listed in modifies: gaps " + strings.Join(gaps, ", ") + " " + strings.Join(unknown, ", ")})
+	}
 }
 
 // loopSpecFor merges the clauses given for loop n with those given for every loop (`loop * ...`).
